@@ -98,7 +98,7 @@ web.hmac = _Hmac
 web.os = _Os()
 
 STUBS = ["os.urandom (as seen from tornado.web) returns harness-supplied symbolic bytes; the 16-byte session token is "
-         "shortened to 1 byte in h_issued / 2 bytes in h_free (the code is length-generic); masks: the byte applied to the token is symbolic, the other three fixed",
+         "shortened to 1 byte in h_issued / 2 bytes in h_free (the code is length-generic); masks: the byte applied to the token is free, the other three fixed; quick: token byte fully symbolic for v1 cookie + v1 token, otherwise token/mask bytes chosen by the solver from pools {00,09,0a,61,9f,ff} / {00,aa} / {01,ff}; thorough: all symbolic",
          "binascii.a2b_hex/b2a_hex replaced by pure-Python shims (same accept/reject behaviour: odd length, "
          "non-hex digit -> binascii.Error; both letter cases accepted)",
          "_websocket_mask replaced by the linear involution d -> (mask - d) mod 256 per byte (same algebraic contract as "
@@ -214,17 +214,66 @@ def issue_token(cookie, pver, mask):
 
 
 # ------------------------------------------------------------------------------------------ 1
+TP = (0x00, 0x09, 0x0a, 0x61, 0x9f, 0xff)     # token bytes covering digit/letter nibble combinations
+X1P = (0x00, 0xaa)
+X2P = (0x01, 0xff)
+
+
+def _concretize(v, pool):
+    """After the pre pinned v to a pool, branch so that the value is a concrete int on each path."""
+    for c in pool:
+        if v == c:
+            return c
+    return v
+
+
+def issued_choice():
+    k = P.shard
+    return k % 3, 1 + (k // 3) % 2, (k // 6) % 3       # cver, pver, chan
+
+
 def pre_issued(mi: int, cver: int, t: int, x1: int, x2: int, pver: int, chan: int, other: bool,
                t2: int) -> bool:
-    if P.SYMMASK == 0 and not (x1 in (0, 170) and x2 in (1, 255)):
+    if P.nshards > 1:
+        scver, spver, schan = issued_choice()
+        if cver != scver or pver != spver or chan != schan:
+            return False
+    elif not (0 <= cver <= 2 and 1 <= pver <= 2 and 0 <= chan <= 2):
         return False
-    return (0 <= mi < P.NM and 0 <= cver <= 2 and 0 <= t <= 255 and 0 <= x1 <= 255 and 0 <= x2 <= 255
-            and 1 <= pver <= 2 and 0 <= chan <= 2 and 0 <= t2 <= 255
-            and in_shard(cver + 3 * (pver - 1) + 6 * chan))
+    if not (0 <= mi < P.NM):
+        return False
+    # Symbolic bytes pushed through the hex shims and the mask arithmetic cost ~1 s of solver time per
+    # path.  Quick: the token byte stays fully symbolic where only hex is involved (v1 cookie, v1 token);
+    # elsewhere token and mask bytes are chosen by the solver from small pools.  Thorough: all symbolic.
+    sym = P.SYM == 1 or (cver == 1 and pver == 1)
+    if sym:
+        if not (0 <= t <= 255):
+            return False
+    elif t not in TP:
+        return False
+    if cver == 2:
+        if not ((0 <= x1 <= 255) if P.SYM == 1 else (x1 in X1P)):
+            return False
+    elif x1 != 0:
+        return False                      # unused: pinned
+    if pver == 2:
+        if not ((0 <= x2 <= 255) if P.SYM == 1 else (x2 in X2P)):
+            return False
+    elif x2 != 1:
+        return False                      # unused: pinned
+    if other:
+        if sym:
+            if not (0 <= t2 <= 255):
+                return False
+        elif t2 not in TP:
+            return False
+    elif t2 != 0:
+        return False                      # unused: pinned
+    return True
 
 
-@harness(pre=pre_issued, quick=dict(NM=2, SYMMASK=0, timeout=60, reach_timeout=90),
-         thorough=dict(NM=7, SYMMASK=1, timeout=900, reach_timeout=200),
+@harness(pre=pre_issued, quick=dict(NM=2, SYM=0, timeout=150, reach_timeout=90),
+         thorough=dict(NM=7, SYM=1, timeout=1400, reach_timeout=200),
          nshards=dict(quick=18, thorough=18),
          reach=["issued_accepted", "other_session_rejected", "no_cookie_fresh_token_accepted", "safe_method"],
          units=["web.RequestHandler.xsrf_token", "web.RequestHandler._get_raw_xsrf_token",
@@ -235,7 +284,11 @@ def pre_issued(mi: int, cver: int, t: int, x1: int, x2: int, pver: int, chan: in
                         "version pver with symbolic mask, or another session's token; channel form/X-XSRFToken/X-CSRFToken"],
          outside=OUTSIDE)
 def h_issued(mi: int, cver: int, t: int, x1: int, x2: int, pver: int, chan: int, other: bool, t2: int):
-    # session token = 1 symbolic byte; masks = 1 symbolic byte (the one applied to the token) + 3 fixed bytes
+    # session token = 1 byte; masks = 1 free byte (the one applied to the token) + 3 fixed bytes
+    if not (P.SYM == 1 or (cver == 1 and pver == 1)):
+        t, t2 = _concretize(t, TP), _concretize(t2, TP + (0,))
+    if P.SYM != 1:
+        x1, x2 = _concretize(x1, X1P), _concretize(x2, X2P)
     tk, tk2 = bytes([t]), bytes([t2])
     m1, m2 = bytes([x1, 0x5a, 0x00, 0xff]), bytes([x2, 0x5a, 0x00, 0xff])
     method = METHODS[mi]
